@@ -5,6 +5,7 @@ mod driver;
 mod fam;
 mod hsys;
 mod oracles;
+mod p_builder;
 mod p_layout;
 mod plan;
 mod res;
@@ -61,8 +62,214 @@ pub const ALL: [&str; 20] = [
     "C14", "C15", "C16", "C17", "C18", "C19", "C20",
 ];
 
+fn lp(
+    property: &'static str,
+    name: &'static str,
+    rule: &'static str,
+    cfg: GenCfg,
+    stream_len: usize,
+    oracle: p_layout::Oracle,
+) -> LayoutProp {
+    LayoutProp {
+        property,
+        name,
+        rule,
+        cfg,
+        stream_len,
+        oracle,
+        capture_debug: false,
+    }
+}
+
+/// small universe, single-resource writers, skewed running times: many systems funnel into one group
+fn funnel_cfg() -> GenCfg {
+    GenCfg {
+        max_ops: 40,
+        universe_max: 3,
+        max_reads: 1,
+        max_writes: 1,
+        p_barrier: 0,
+        p_batch: 0,
+        p_tl: 0,
+        p_dep: 1,
+        p_static: 0,
+        ..GenCfg::default()
+    }
+}
+
+fn dense_conflict_cfg() -> GenCfg {
+    GenCfg {
+        universe_max: 5,
+        max_reads: 3,
+        max_writes: 2,
+        ..GenCfg::default()
+    }
+}
+
 fn subs_for(id: &str) -> Vec<Sub> {
     match id {
+        "C18" => vec![
+            sub(
+                p_builder::C18 {
+                    name: "c18-general",
+                    rule: "general registration sequences (systems, batches, thread-locals, barriers, empty and odd names); in half of the cases one ill-formed call is planted at a generated position of a generated (possibly nested) builder: dependency on an unknown name, on \"\", on the system's own name, on a later system, on a name of the parent builder, or a reused non-empty name; oracle: every call runs under catch_unwind, well-formed calls and build() never panic, the planted call panics at that very call with a string payload quoting the name; non-trivial = planted case, or well-formed with >= 8 systems; distinct = hash of (plan, plant)",
+                    cfg: GenCfg::default(),
+                    stream_len: 600,
+                    plant: true,
+                },
+                60_000,
+                1_500_000,
+            ),
+            sub(
+                p_builder::C18 {
+                    name: "c18-funnel",
+                    rule: "funnel class: <= 3 resources, single-resource writers, running-time hints 1..5, up to 40 systems, so that many systems conflict with exactly one group and join it until it is full",
+                    cfg: funnel_cfg(),
+                    stream_len: 500,
+                    plant: false,
+                },
+                60_000,
+                1_500_000,
+            ),
+            sub(
+                p_builder::C18 {
+                    name: "c18-long",
+                    rule: "long sequences: up to 400 registrations",
+                    cfg: GenCfg {
+                        max_ops: 400,
+                        universe_max: 6,
+                        ..GenCfg::default()
+                    },
+                    stream_len: 6000,
+                    plant: true,
+                },
+                1_500,
+                40_000,
+            ),
+        ],
+        "C19" => vec![sub(
+            p_builder::C19 {
+                cfg: GenCfg {
+                    p_static: 0,
+                    batch_decl: false,
+                    ..GenCfg::default()
+                },
+            },
+            40_000,
+            1_000_000,
+        )],
+        "C20" => vec![
+            sub(
+                LayoutProp {
+                    capture_debug: true,
+                    ..lp(
+                        "C20",
+                        "c20-printed",
+                        "general plans with unnamed systems (1/8), odd names with spaces, dashes and slashes incl. names that sanitise to the same text (1/8), batches (every nested builder is formatted too) and empty builders; oracle: {:?} does not panic, parses as seq![par![seq![name,]]], has the shape of the executed plan and names the system that really runs at each (stage, group, position), placeholder for unnamed; non-trivial = a builder with >= 2 systems; distinct = plan hash",
+                        GenCfg {
+                            p_odd_name: 4,
+                            p_unnamed: 3,
+                            ..GenCfg::default()
+                        },
+                        600,
+                        p_builder::o_c20,
+                    )
+                },
+                60_000,
+                1_500_000,
+            ),
+        ],
+        "C01" => vec![
+            sub(
+                lp(
+                    "C01",
+                    "c01-layout",
+                    "general plans; oracle A: in the executed layout no two systems in different groups of one stage conflict under the reference conflict relation (batch = union of controller declaration and everything inside); non-trivial = a stage with >= 2 groups and >= 1 conflicting pair; distinct = plan hash",
+                    GenCfg::default(),
+                    600,
+                    p_layout::o_c01,
+                ),
+                60_000,
+                1_000_000,
+            ),
+            sub(
+                lp(
+                    "C01",
+                    "c01-layout-dense",
+                    "conflict-dense plans (universe <= 5 resources)",
+                    dense_conflict_cfg(),
+                    600,
+                    p_layout::o_c01,
+                ),
+                60_000,
+                1_000_000,
+            ),
+        ],
+        "C02" => vec![sub(
+            lp(
+                "C02",
+                "c02-layout",
+                "dependency-heavy plans over systems that mostly share no resource; oracle A: every declared edge A -> B has A in an earlier stage, or earlier in the same group; non-trivial = >= 1 edge whose endpoints do not conflict on resources",
+                GenCfg {
+                    p_dep: 11,
+                    max_deps: 4,
+                    universe_max: 12,
+                    max_reads: 1,
+                    max_writes: 1,
+                    p_barrier: 1,
+                    ..GenCfg::default()
+                },
+                600,
+                p_layout::o_c02,
+            ),
+            80_000,
+            1_500_000,
+        )],
+        "C03" => vec![sub(
+            lp(
+                "C03",
+                "c03-layout",
+                "plans with barriers at arbitrary positions (leading, trailing, doubled, inside batch builders, 1/4 of the ops) over mostly unrelated systems; oracle A: every system of an earlier barrier segment is in a strictly earlier stage, thread-local systems stay in the thread-local list; non-trivial = unrelated systems on both sides of an effective barrier",
+                GenCfg {
+                    p_barrier: 4,
+                    p_dep: 2,
+                    universe_max: 12,
+                    max_reads: 1,
+                    max_writes: 1,
+                    ..GenCfg::default()
+                },
+                600,
+                p_layout::o_c03,
+            ),
+            80_000,
+            1_500_000,
+        )],
+        "C04" => vec![
+            sub(
+                lp(
+                    "C04",
+                    "c04-layout",
+                    "general plans; oracle: shape-hook total == number registered == number identified, every system exactly once in the executed lists, thread-local list in registration order; non-trivial = a group of >= 3 or >= 8 stages",
+                    GenCfg::default(),
+                    600,
+                    p_layout::o_c04,
+                ),
+                40_000,
+                800_000,
+            ),
+            sub(
+                lp(
+                    "C04",
+                    "c04-layout-funnel",
+                    "funnel class (groups filled to capacity)",
+                    funnel_cfg(),
+                    500,
+                    p_layout::o_c04,
+                ),
+                40_000,
+                800_000,
+            ),
+        ],
         "C10" => vec![
             sub(
                 LayoutProp {
@@ -72,6 +279,7 @@ fn subs_for(id: &str) -> Vec<Sub> {
                     cfg: GenCfg::default(),
                     stream_len: 600,
                     oracle: p_layout::o_c10,
+                    capture_debug: false,
                 },
                 100_000,
                 2_000_000,
@@ -96,6 +304,7 @@ fn subs_for(id: &str) -> Vec<Sub> {
                     },
                     stream_len: 400,
                     oracle: p_layout::o_c10,
+                    capture_debug: false,
                 },
                 100_000,
                 2_000_000,
